@@ -1,0 +1,60 @@
+// Copyright 2021 TiKV Project Authors.
+//
+// Licensed under the Apache License, Version 2.0 (the "License");
+// you may not use this file except in compliance with the License.
+// You may obtain a copy of the License at
+//
+//     http://www.apache.org/licenses/LICENSE-2.0
+//
+// Unless required by applicable law or agreed to in writing, software
+// distributed under the License is distributed on an "AS IS" BASIS,
+// See the License for the specific language governing permissions and
+// limitations under the License.
+
+//go:build verif
+// +build verif
+
+// Machine-checked contracts for the region syncer (checked by /verif/govc; comment-only file).
+package syncer
+
+//@ pure dist(h *historyBuffer, j int) = ite(j < h.head, j + h.size - h.head, j - h.head)
+//@ pure cnt(h *historyBuffer) = dist(h, h.tail)
+//@ pure wf(h *historyBuffer) = h.size >= 2 && h.size <= MaxInt32 && len(h.records) == h.size && 0 <= h.head && h.head < h.size && 0 <= h.tail && h.tail < h.size && h.index >= cnt(h)
+//@ pure slot(h *historyBuffer, k int) = ite(h.head + k < h.size, h.head + k, h.head + k - h.size)
+//@ pure first(h *historyBuffer) = h.index - cnt(h)
+
+//@ func (*historyBuffer).distanceToTail
+//@   props C16
+//@   requires wf(h) && 0 <= pos && pos < h.size
+//@   ensures result == ite(h.tail < pos, h.tail + h.size - pos, h.tail - pos)
+//@   ensures 0 <= result && result < h.size
+//@   modifies nothing
+
+//@ func (*historyBuffer).ResetWithIndex
+//@   props C16
+//@   requires wf(h)
+//@   ensures wf(h) && h.index == index && cnt(h) == 0 && h.flushCount == 100
+//@   modifies h.index, h.head, h.tail, h.flushCount
+
+//@ func (*historyBuffer).Record
+//@   props C16
+//@   requires wf(h) && h.index < MaxUint64 && 0 < h.flushCount && h.flushCount <= 100
+//@   ensures [wf] wf(h)
+//@   ensures [index] h.index == old(h.index) + 1
+//@   ensures [count] cnt(h) == min(old(cnt(h)) + 1, h.size - 1)
+//@   ensures [first] first(h) >= old(first(h))
+//@   ensures [newest] h.records[slot(h, cnt(h) - 1)] == r
+//@   ensures [window] forall i :: first(h) <= i && i < h.index - 1 ==> h.records[slot(h, i - first(h))] == old(h.records[slot(h, i - first(h))])
+//@   ensures [flush] 0 < h.flushCount && h.flushCount <= 100
+//@   modifies h.index, h.head, h.tail, h.flushCount, h.records[*]
+
+//@ func (*historyBuffer).RecordsFrom
+//@   props C16
+//@   requires wf(h)
+//@   ensures [outside] !(first(h) <= index && index < h.index) ==> result == nil && len(result) == 0
+//@   ensures [len] first(h) <= index && index < h.index ==> len(result) == h.index - index
+//@   ensures [content] first(h) <= index && index < h.index ==> forall k :: 0 <= k && k < len(result) ==> result[k] == h.records[slot(h, index - first(h) + k)]
+//@   modifies nothing
+//@   loop 1 invariant 0 <= i && i < h.size && first(h) <= index && index < h.index
+//@   loop 1 invariant dist(h, i) == index - first(h) + len(records) && dist(h, i) <= cnt(h)
+//@   loop 1 invariant forall k :: 0 <= k && k < len(records) ==> records[k] == h.records[slot(h, index - first(h) + k)]
